@@ -230,7 +230,7 @@ var c05Kinds = []c05Kind{
 	{"batch-modify-then-delete", []int{ref.PModifyUser, ref.PDeleteUser}, func(x c05Ctx) ref.Tx {
 		return ref.Tx{Type: ref.TUpdateUser, Fields: []ref.Fld{
 			ref.F(ref.FData, subFields(ref.F(ref.FUserLogin, obf("vic")), ref.FS(ref.FUserName, "Changed"), ref.F(ref.FUserPassword, []byte{0}), ref.F(ref.FUserAccess, make([]byte, 8)))),
-			ref.F(ref.FData, subFields(ref.F(ref.FData, obf("obs"))))}}
+			ref.F(ref.FData, subFields(ref.F(ref.FData, obf("guest"))))}}
 	}, ""},
 	{"batch-delete", []int{ref.PDeleteUser}, func(x c05Ctx) ref.Tx {
 		return ref.Tx{Type: ref.TUpdateUser, Fields: []ref.Fld{ref.F(ref.FData, subFields(ref.F(ref.FData, obf("vic"))))}}
